@@ -15,6 +15,7 @@ counterexample that does not reproduce natively).
 """
 import argparse
 import fcntl
+import threading
 import fnmatch
 import glob
 import json
@@ -317,6 +318,7 @@ def run_harness(pretty, fn, spec, meta, prop):
                     cb += ["--unwindset", ",".join(us)]
                     res["unwindset_labels"] = ",".join(us)
             cb += [out, "--verbosity", "8"]
+            res["cbmc_cmd"] = cb
             lf.write("$ " + " ".join(cb) + "\n")
             lf.flush()
             cbout = base + ".cbmc.txt"
@@ -370,7 +372,8 @@ def run_harness(pretty, fn, spec, meta, prop):
     finally:
         res["wall_s"] = round(time.time() - t0, 2)
         try:
-            if not os.environ.get("VERIF_KEEP"):
+            # the binary of a counterexample run is kept for the trace extraction in replay() (removed there)
+            if not os.environ.get("VERIF_KEEP") and res.get("status") != "counterexample":
                 os.remove(out)
         except OSError:
             pass
@@ -509,6 +512,77 @@ def match_known(known, prop, fn, chk):
 # replay: kani concrete playback of the counterexample against the real
 # (un-stubbed) code, in a scratch copy of /repo, dev and release profile
 # --------------------------------------------------------------------------
+
+def trace_values(r, log_path):
+    """Re-runs CBMC on the kept binary for ONE failed property with --trace and extracts the values of the harness's
+    kani::any() calls in execution order - the rule kani-driver 0.68 uses (assignments to goto_symex$$return_value*
+    inside kani::any_raw_*), read from CBMC's text trace so that memory stays at CBMC's own footprint (kani-driver's
+    JSON route needs tens of GB on the larger harnesses).  Returns (list of byte lists, property id) or (None, why)."""
+    cb = r.get("cbmc_cmd")
+    if not cb or not r.get("failed"):
+        return None, "no cbmc command / failed check recorded"
+    out = next((a for a in cb if a.endswith(".out")), None)
+    if not out or not os.path.exists(out):
+        return None, "goto binary not kept"
+    spec = r["spec"]
+    last = "no failed property produced a trace"
+    for chk in r["failed"][:3]:
+        cmd = [a for a in cb if a not in ("--verbosity", "8")] + ["--trace", "--property", chk["id"]]
+        vals = []
+        found = False
+        with open(log_path, "a") as lf:
+            lf.write("$ " + " ".join(cmd) + "\n")
+            p = subprocess.Popen(cmd, stdout=subprocess.PIPE, stderr=subprocess.STDOUT, text=True, errors="replace",
+                                 preexec_fn=limit(max(spec.mem, 16)))
+            timer = threading.Timer(max(spec.timeout, 60) * 2, p.kill)
+            timer.start()
+            try:
+                in_any = False
+                for line in p.stdout:
+                    if line.startswith("Trace for "):
+                        found = True
+                        continue
+                    if not found:
+                        if not line.startswith(("Unwinding loop", "aborting path")):
+                            lf.write(line)
+                        continue
+                    if line.startswith("State "):
+                        m = re.search(r" function (.*) line \d+ thread", line)
+                        in_any = bool(m and m.group(1).startswith("kani::any_raw_"))
+                        continue
+                    if in_any and line.startswith("  goto_symex$$return_value"):
+                        m = re.match(r"^  (\S+?)=(.*) \((.*)\)\s*$", line.rstrip("\n"))
+                        if not m:
+                            continue
+                        interp, bits = m.group(2), m.group(3)
+                        groups = [g for g in bits.strip("{} ").split(",")] if bits.lstrip().startswith("{") else [bits]
+                        for g in groups:
+                            b = g.replace(" ", "").strip("{}")
+                            if not b or len(b) % 8 or set(b) - {"0", "1"}:
+                                continue
+                            by = [int(b[i:i + 8], 2) for i in range(0, len(b), 8)]
+                            by.reverse()  # CBMC prints most significant byte first
+                            vals.append((by, interp if len(groups) == 1 else ""))
+            finally:
+                timer.cancel()
+                p.wait()
+        if found:
+            return vals, chk["id"]
+        last = f"cbmc --trace gave no trace for {chk['id']} (rc={p.returncode})"
+    return None, last
+
+
+def trace_playback_test(r, vals):
+    fn = r["harness"]
+    lines = ["#[test]", f"fn kani_concrete_playback_{fn}_trace() {{", "    let concrete_vals: Vec<Vec<u8>> = vec!["]
+    for by, interp in vals:
+        if interp:
+            lines.append(f"        // {interp}")
+        lines.append("        vec![" + ", ".join(str(x) for x in by) + "],")
+    lines += ["    ];", f"    kani::concrete_playback_run(concrete_vals, {fn});", "}"]
+    return "\n".join(lines) + "\n"
+
+
 def replay(prop, r, keep=False):
     """returns (verdict, path, detail); verdict in reproduced/not-reproduced/error"""
     fn, pretty, spec = r["harness"], r["pretty"], r["spec"]
@@ -517,6 +591,21 @@ def replay(prop, r, keep=False):
     rpath = os.path.join(rdir, fn + ".rs")
     if spec.replay == "none":
         return "error", rpath, "harness declares replay: none"
+    snapshot = os.path.join(WORK, prop, "harness-snapshot")
+    first = None
+    vals, why = trace_values(r, os.path.join(WORK, prop, "run", fn + ".trace.log"))
+    out_bin = next((a for a in r.get("cbmc_cmd", []) if a.endswith(".out")), None)
+    if out_bin and not os.environ.get("VERIF_KEEP"):
+        try:
+            os.remove(out_bin)
+        except OSError:
+            pass
+    if vals is not None:
+        first = write_and_run_replay(prop, r, rpath, [trace_playback_test(r, vals)], snapshot,
+                                     f"values read from CBMC's trace of {why}")
+        if first[0] == "reproduced":
+            return first[0], rpath, first[1]
+    # second opinion: Kani's own concrete playback (all failed properties; needs far more memory)
     target = os.path.join(WORK, "target")
     cmd = ["cargo", "kani", "-p", "rustic_core", "--target-dir", target, "-Z", "stubbing",
            "-Z", "unstable-options", "-Z", "concrete-playback", "--concrete-playback=print",
@@ -538,7 +627,17 @@ def replay(prop, r, keep=False):
     tests = re.findall(r"```\s*\n(.*?)```", p.stdout, re.S)
     tests = [t for t in tests if "kani::concrete_playback_run" in t]
     if not tests:
-        return "error", rpath, "kani produced no concrete playback test (see playback.log)"
+        if first is not None:
+            return first[0], rpath, first[1] + " [kani playback produced no test]"
+        return "error", rpath, "no trace values (" + str(why) + ") and kani produced no concrete playback test (see playback.log)"
+    verdict, detail = write_and_run_replay(prop, r, rpath, tests, snapshot, "kani concrete playback")
+    if first is not None and verdict != "reproduced":
+        detail = f"trace values: {first[1]}; kani playback: {detail}"
+    return verdict, rpath, detail
+
+
+def write_and_run_replay(prop, r, rpath, tests, snapshot, origin):
+    pretty, spec = r["pretty"], r["spec"]
     uniq = []
     seen_names = set()
     for t in tests:
@@ -564,10 +663,9 @@ def replay(prop, r, keep=False):
     failing = "; ".join(f"{c['function']}: {c['desc']} @ {c['file']}:{c['line']}" for c in r["failed"][:6])
     header = (f"// replay of a solver counterexample\n// property: {prop}\n// harness: {pretty}\n"
               f"// failing checks: {failing}\n// module file: {module_src(spec.module)}\n"
-              f"// re-run: /verif/check --replay {rpath}\n")
+              f"// values: {origin}\n// re-run: /verif/check --replay {rpath}\n")
     open(rpath, "w").write(header + "#[cfg(kani)]\nmod verif_replay {\n" + body + "}\n")
-    verdict, detail = run_replay_file(rpath, os.path.join(WORK, prop, "harness-snapshot"))
-    return verdict, rpath, detail
+    return run_replay_file(rpath, snapshot)
 
 
 def module_src(module):
